@@ -56,9 +56,10 @@ def run(ctx):
         nets = {'sir_mf': 'mf', 'sir_preg': 'mf', 'hiv_mf_vx': 'mf', 'sir_births': 'mf'}
         beta = {nets[kind]: [0.4, 0.3]} if kind in nets else 0.2
         if kind == 'sir_preg': beta = {'mf': [0.4, 0.3], 'maternal': [0.3, 0]}
-        if kind != 'sis_pool':
-            out.append(('extra independent SIS', dict(diseases=[ss.SIS(name='ghostsis', beta=beta, init_prev=0.2)]), ['ghostsis']))
-            out.append(('extra independent SIR without deaths', dict(diseases=[ss.SIR(name='ghostsir', beta=beta, init_prev=0.2, p_death=0)]), ['ghostsir']))
+        pk = ('mixing-pool-shared-acquire-stream',) if kind == 'sis_pool' else ()     # one p_acquire stream is shared by all diseases of a pool (listed finding)
+        out.append(('extra independent SIS', dict(diseases=[ss.SIS(name='ghostsis', beta=beta, init_prev=0.2)]), ['ghostsis']) + pk)
+        out.append(('extra independent SIR without deaths', dict(diseases=[ss.SIR(name='ghostsir', beta=beta, init_prev=0.2, p_death=0)]), ['ghostsir']) + pk)
+        if kind == 'sis_pool': out.append(('extra independent SIR without deaths, listed first', dict(diseases_front=[ss.SIR(name='ghostsir1', beta=beta, init_prev=0.2, p_death=0)]), ['ghostsir1']) + pk)
         return out
     for kind in bases:
         for rep in range(ctx.n(1, 3)):
@@ -86,6 +87,10 @@ def run(ctx):
                 pt = {tr: int(dd.seed) for tr, dd in p.dists.dists.items()}
                 moved = [tr for tr in base_traces if pt.get(tr) != base_traces[tr]]
                 renamed = [tr for tr in pt if any(nn in tr for nn in newnames) and '_watched_' in tr]
+                if fkey == 'mixing-pool-shared-acquire-stream' and d and not moved:
+                    ctx.violation(f'{kind} (seed {seed}) + {name}: `{d[0]}` of the unperturbed components differs from the base run (all diseases of a mixing pool draw from the pool\'s single acquisition stream, one call per disease)',
+                                  dict(W, perturbation=name, finding_key=fkey, first_difference=d[0]))
+                    continue
                 if fkey and moved and len(renamed) >= len(moved):
                     # listed finding: the distributions of a module are named after the first object path that reaches them, here the path through the holder
                     ctx.violation(f'{kind} (seed {seed}) + {name}: distribution `{moved[0]}` of the base configuration is now `{renamed[0]}` with another seed' + (f'; `{d[0]}` of the unperturbed components differs from the base run' if d else ''),
